@@ -49,6 +49,7 @@ structure Far (f : Forest) (keep : Keep) (c : Nat) (t : HTree) (q : Nat) (vq : V
   fix : φ t = t
   ysite : SiteAt Y q vq (Lq.map φ)
   xsite : ∃ φ', KidMap φ' ∧ φ' t = t ∧ SiteAt X q vq (Lq.map φ')
+  yleaf : (∀ k ∈ Lq, k.value.isText = true → k.kids = []) → ∀ k ∈ Lq.map φ, k.value.isText = true → k.kids = []
   spec : ∀ dest : Dest, dest.occupiedBy f c = false → dest.site f = some q →
     (∀ ψ, KidMap ψ → ψ t = t → NatFor ψ (dest.insert t)) →
     specMove keep dest c f = (Y.editAt (some q) (dest.insert t)).mergeAt keep (some q)
@@ -61,7 +62,8 @@ theorem far_root {f : Forest} {keep : Keep} {c : Nat} {t : HTree} {q : Nat} {vq 
     Far f keep c t q vq Lq f (f.editAt none (dropTop c)) id := by
   have nd := sq.nd
   have hpar : f.parent? c = none := Forest.parent?_of_no_ctx hroot
-  refine ⟨nd, hgc, by rw [hpar], rfl, rfl, kidMap_id, rfl, ?_, ⟨id, kidMap_id, rfl, by rw [List.map_id]; exact sq⟩, ?_, ?_⟩
+  refine ⟨nd, hgc, by rw [hpar], rfl, rfl, kidMap_id, rfl, ?_, ⟨id, kidMap_id, rfl, by rw [List.map_id]; exact sq⟩,
+    (by intro h; rw [List.map_id]; exact h), ?_, ?_⟩
   · rw [List.map_id]; exact sq.dropRoot hgc hq
   · intro dest hocc hs _
     rw [specMove_unfold hocc hgc hs, hpar, mergeAt_none]
@@ -163,12 +165,35 @@ theorem far_kid {f : Forest} {keep : Keep} {po : Nat} {vo : Value} {l : List HTr
   have sXq := so.other sq.kids hne.symm (fun _ => l1 ++ t :: r1) hsubX hlookX
   rw [← hX] at sXq
   refine ⟨HTree.editAt po (fun _ => l1 ++ r1), sX.nd, sX.getKid, ?_, ?_, ?_, kidMap_editAt _ _,
-    editAt_of_not_mem t hpot, ?_, ?_, ?_, ?_⟩
+    editAt_of_not_mem t hpot, ?_, ?_, ?_, ?_, ?_⟩
   · rw [hXpar]; exact hcut
   · rw [hX]; rfl
   · rw [hY]; rfl
   · rw [hY]; exact sY
   · exact ⟨_, kidMap_editAt _ _, editAt_of_not_mem t hpot, sXq⟩
+  · -- text children of the destination are still leaves
+    intro hlf k hk htx
+    obtain ⟨k0, hk0, e⟩ := List.mem_map.1 hk
+    subst e
+    rw [editAt_value] at htx
+    have hk0l := hlf k0 hk0 htx
+    have hk0po : k0.handle ≠ po := by
+      intro e
+      obtain ⟨A, B, hAB⟩ := List.append_of_mem hk0
+      have sq' : SiteAt f q vq (A ++ k0 :: B) := hAB ▸ sq
+      have := sq'.getKid
+      rw [e, so.kids] at this
+      have := Option.some.inj this
+      rw [← this] at hk0l
+      simp only [HTree.kids] at hk0l
+      cases l <;> cases hk0l
+    cases k0 with
+    | node h v ks =>
+      simp only [HTree.kids] at hk0l
+      simp only [HTree.handle] at hk0po
+      subst hk0l
+      rw [editAt_node, if_neg hk0po]
+      rfl
   · -- the specification: graft and old-site merge commute
     intro dest hocc hs hnat
     have hpar : f.parent? t.handle = some po := Forest.parent?_of_ctx so.ctx
